@@ -125,6 +125,44 @@ def classify_spec(it, w: ExcWorld, heuristics: bool):
     return out
 
 
+def any_value_from_model(it, m, v):
+    """a concrete python value for an AnyV under model m"""
+    from pyvc.modelval import val
+    tag = next(t for t, c in it.any_tags.items() if val(m, v.tag == c) is True)
+    if tag == "None":
+        return None
+    if tag == "Bool":
+        return bool(val(m, v.b))
+    if tag == "Int":
+        return val(m, v.i)
+    if tag == "Float":
+        k = val(m, v.fk)
+        return {1: float("inf"), 2: float("-inf"), 3: float("nan")}.get(k, val(m, v.fv))
+    if tag == "Str":
+        return val(m, v.s)
+    if tag == "Bytes":
+        return b"x" if val(m, v.truthy) else b""
+    if tag == "Container":
+        return [0] if val(m, v.truthy) else []
+    return "<object>"
+
+
+def exc_from_model(it, w, m, which):
+    from pyvc.modelval import val
+    leaf = next((l for l, c in it.lattice.const.items() if val(m, w.exc.cls_t == c) is True), "Exception*")
+    attrs = {}
+    for a, ab in w.attr.items():
+        if val(m, ab.absent) is False:
+            v = any_value_from_model(it, m, ab.val)
+            if v != "<object>":
+                attrs[a] = v
+    name = val(m, w.name.t)
+    lname = val(m, w.lname.t)
+    # the class name must lower-case to the model's string for the name heuristics: use the lower-cased one
+    return {"component": "classifier", "which": which, "leaf": leaf, "name": "".join(ch for ch in (lname or name or "X") if ch.isalnum()) or "X",
+            "attrs": attrs}
+
+
 def t_classify(it, which):
     install(it)
     key = {"default": "redress.classify:default_classifier", "strict": "redress.classify:strict_classifier"}[which]
@@ -132,6 +170,7 @@ def t_classify(it, which):
     def h(it):
         w = ExcWorld(it)
         p = it.path
+        p.replay_spec = lambda m: exc_from_model(it, w, m, which)
         r = call_catch(it, FuncV(it.tree.func(key)), [w.exc])
         if r[0] == "exc":
             p.oblige(f"{key}/raises/none", False, prop=P, detail=repr(r[1]))
@@ -402,6 +441,8 @@ TASKS = [
     for (m, f, l) in OPTIONAL
 ]
 for _t in TASKS:
+    if _t.name.startswith("classify."):
+        _t.replay_script = "model_replay.py"
     _t.assumptions = ["C19: exception attributes are absent or any built-in value (sort Any); objects' __bool__/__eq__/__str__ do not raise; "
                       "str.lower and class names are uninterpreted strings; optional-library classifiers are claimed only with the library absent"]
     _t.weight = 3
